@@ -531,3 +531,53 @@ def _param_text_ok(sm, roles, b, pidx, s0, s1, agg_bb):
         if _advance_between(sm, cb, to.data.bb, c.bb):
             return 'the caller advances the scanner between cutting the text and building the token'
     return None
+
+
+# ----------------------------------------------------------------------------- CHARUNITS
+COUNT_STEPS = ('std::iter::Iterator::nth', 'std::iter::Iterator::skip', 'std::iter::Iterator::advance_by', 'std::iter::Iterator::take',
+               'std::iter::Iterator::step_by', 'std::iter::Iterator::nth_back')
+BYTE_VALUED = re.compile(r'^(core::str::<impl str>::(len|find|rfind|find_map|floor_char_boundary|ceil_char_boundary)|std::string::String::len|'
+                         r'core::char::methods::<impl char>::len_utf8|core::str::<impl str>::(match_indices|char_indices))$')
+
+
+def rule_charunits(roles):
+    """a count-based step of a character iterator (nth / skip / advance_by / take) must be given a number of
+    characters: a byte quantity (str::len, str::find, len_utf8, a CharIndices position) over-advances on multi-byte
+    text and silently drops the characters that follow"""
+    prog = roles.prog
+    obs = []
+    n = 0
+    for b in roles.token_bodies():
+        for c in b.live_calls:
+            if c.callee not in COUNT_STEPS or not c.term['arg_tys'] or len(c.args) < 2:
+                continue
+            if not re.search(r'std::str::(CharIndices|Chars)<', c.term['arg_tys'][0]):
+                continue
+            n += 1
+            key = 'CHARUNITS|%s|%s|#%d' % (b.name, c.callee.split('::')[-1], len([o for o in obs if o.key.startswith('CHARUNITS|%s|' % b.name)]))
+            origins = trace_operand(b, c.args[1], through_calls=set())
+            byte = []
+            unknown = []
+            for o in origins:
+                if o.kind == 'const':
+                    continue
+                if o.kind == 'callres':
+                    nm = o.data.rdef or o.data.callee or ''
+                    if BYTE_VALUED.match(o.data.callee or '') or BYTE_VALUED.match(nm):
+                        byte.append(nm)
+                        continue
+                    if nm.endswith('Iterator>::count') or (o.data.callee or '') == 'std::iter::Iterator::count':
+                        continue
+                    if (o.data.rdef or '').endswith("CharIndices<'a> as std::iter::Iterator>::next") or (o.data.rdef or '').endswith('CharIndices<\'_> as std::iter::Iterator>::next'):
+                        byte.append('a CharIndices position')
+                        continue
+                unknown.append(repr(o))
+            if byte:
+                obs.append(bad('CHARUNITS', key, '%s on the character iterator is given a byte quantity (%s): on multi-byte text it skips too far and the characters after it are silently dropped' % (c.callee.split('::')[-1], ', '.join(sorted(set(byte)))), c.where(), body=b.name, bb=c.bb))
+            elif unknown:
+                obs.append(assumed('CHARUNITS', key, '%s on the character iterator: the count (%s) is not recognisably a byte quantity' % (c.callee.split('::')[-1], '; '.join(unknown)[:200]), c.where()))
+            else:
+                obs.append(ok('CHARUNITS', key, '%s on the character iterator is given a constant / a character count' % c.callee.split('::')[-1], c.where()))
+    if n == 0:
+        obs.append(ok('CHARUNITS', 'CHARUNITS|none', 'the character iterators are only stepped one item at a time (no nth / skip / advance_by / take)'))
+    return obs
